@@ -282,6 +282,9 @@ def rde43(r, cap):
     return s[:cap] if len(s) > cap else s
 
 
+ALLOW_UNENCODABLE = False      # switched on by the drivers that judge dumps() itself (C01, C02)
+
+
 def value_for(r, f, alpha):
     """A well-formed value for field config f (dict from bit_config)."""
     ftype, flen = f['field_type'], int(f.get('field_length') or 0)
@@ -314,6 +317,14 @@ def value_for(r, f, alpha):
         n = r.randrange(10, 20) if ftype != 'FIXED' else flen
         return ''.join(chr(48 + (i * 7 + 3) % 10) for i in range(n)) if r.random() < 0.5 else rtext(r, n, alpha, 'digits')
     n = flen if ftype == 'FIXED' else var_len(r, cap)
+    if ALLOW_UNENCODABLE and n >= 1 and r.random() < 0.03:
+        # one character that the code page cannot express (typographic apostrophe, euro sign, a Polish letter, an accent
+        # under ascii): there is no "text in the chosen encoding" for it - the message must be refused, not altered
+        outside = [c for c in ('\u2019', '\u20ac', '\u0142', '\u00e9') if c not in alpha]
+        if outside:
+            t = rtext(r, n, alpha, 'safe')
+            k = r.randrange(n)
+            return t[:k] + r.choice(outside) + t[k + 1:]
     if r.random() < 0.06:
         return ' ' * n                      # a value that is all blanks is a value
     if r.random() < 0.04:
